@@ -56,15 +56,20 @@ def run_generator(prop, cfg):
     return GENERATED[prop]
 
 
-def link_harness(prop, cfg, variant, extra_key=""):
-    """Compile the C shims against the freshly built libast variant and link the harness binary."""
+def link_harness(prop, cfg, variant, extra_key="", fuzz=False):
+    """Compile the C shims against the freshly built libast variant and link the harness binary
+    (fuzz=True: the libFuzzer driver engine/fuzz_main.cpp takes the place of engine/main.cpp)."""
     vdir = build.ensure(variant)
+    if fuzz:
+        extra_key += "|fuzz"
     gen = run_generator(prop, cfg)
     gen_inc = []
     if gen:
         gen_inc = ["-I" + gen[0]]
         extra_key += "".join(open(f).read() for f in sorted(glob.glob(os.path.join(gen[0], "*.inc"))))
     objs = setup.ensure_objects([prop])
+    skip = "main.cpp" if fuzz else "fuzz_main.cpp"
+    objs = {k: v for k, v in objs.items() if os.path.basename(k) != skip}
     pdir = os.path.join(VERIF, "props", prop)
     shim_srcs = sorted(glob.glob(os.path.join(pdir, "shim*.c"))) + [os.path.join(VERIF, "engine", "tracker_shim.c")]
     cc, cflags, _dbg, _pf = build.VARIANTS[variant]
@@ -72,11 +77,12 @@ def link_harness(prop, cfg, variant, extra_key=""):
     key_src = "".join(open(s).read() for s in shim_srcs + incs) + vdir + " ".join(sorted(objs.values())) + extra_key + \
         json.dumps(cfg.get("link", {}), sort_keys=True)
     key = hashlib.sha256(key_src.encode()).hexdigest()[:16]
-    bdir = os.path.join(build.CACHE, "bin", "%s-%s-%s" % (prop, variant, key))
+    tagv = variant + ("+fuzz" if fuzz else "")
+    bdir = os.path.join(build.CACHE, "bin", "%s-%s-%s" % (prop, tagv, key))
     exe = os.path.join(bdir, "harness")
     if os.path.exists(exe):
         return exe
-    for old in glob.glob(os.path.join(build.CACHE, "bin", "%s-%s-*" % (prop, variant))):
+    for old in glob.glob(os.path.join(build.CACHE, "bin", "%s-%s-*" % (prop, tagv))):
         shutil.rmtree(old, ignore_errors=True)
     os.makedirs(bdir, exist_ok=True)
     shim_objs = []
@@ -90,6 +96,10 @@ def link_harness(prop, cfg, variant, extra_key=""):
         shim_objs.append(o)
     link = cfg.get("link", {})
     san = [f for f in cflags.split() if f.startswith("-fsanitize") or f.startswith("-fno-sanitize")]
+    if fuzz:
+        san = [f.replace("fuzzer-no-link", "fuzzer") for f in san]
+        if not any("fuzzer" in f for f in san):
+            san.append("-fsanitize=fuzzer")
     cmd = ["clang++"] + san + list(objs.values()) + shim_objs + [os.path.join(vdir, "libast.a")] + \
           ["-lrapidcheck"] + LIBS + link.get("ldflags", [])
     r = sh(cmd + ["-o", exe])
@@ -212,6 +222,8 @@ def _generic(args, cfg, prop, tier, t0, known, open_f, quarantine, run_dir, scra
     foreign_cfg = {}
 
     def ekey(m):
+        if m.get("engine") == "libfuzzer":     # seeds and replays of a fuzz mode run on the ordinary fork-executor binary
+            return (m.get("harness_from", prop), m.get("seed_variant", "asan"))
         return (m.get("harness_from", prop), m.get("variant", "asan"))
 
     def mode_opts(m):
@@ -290,10 +302,43 @@ def _generic(args, cfg, prop, tier, t0, known, open_f, quarantine, run_dir, scra
 
     # ---------------- generated search
     worker_procs = []
+    worker_env = {}
     for mname, m in modes.items():
         t = m[tier]
         exe = exes[ekey(m)]
         nworkers = int(t.get("workers", 12))
+        if m.get("engine") == "libfuzzer":
+            # (a) shape + seed corpus: cases dumped from the rapidcheck generators of the sibling modes, plus this
+            #     property's committed regression cases of those modes
+            shape = os.path.join(run_dir, "shape-" + mname)
+            os.makedirs(shape, exist_ok=True)
+            for sm in m["seed_modes"]:
+                sd = os.path.join(run_dir, "seedgen-%s-%s" % (mname, sm))
+                r = sh([exe, "--search", "--mode", sm, "--seed", str(args.seed * 100 + 97), "--cases", str(t.get("seed_cases", 400)),
+                        "--size", str(t.get("size", 60)), "--tier", tier, "--worker", "0", "--out", sd, "--scratch", os.path.join(scratch, "seedgen-" + sm),
+                        "--opt", "dumpdir=" + shape, "--opt", "dumpmax=%d" % t.get("seed_cases", 400), "--opt", "nworkers=1"] + PROGRAM_OPTS +
+                       (["--quarantine", ",".join(quarantine)] if quarantine else []), timeout=1200)
+            for cpath in sorted(glob.glob(os.path.join(VERIF, "corpus", prop, "*.case"))):
+                mm = re.search(r"# property \S+ mode (\S+)", open(cpath, errors="replace").read(300))
+                if mm and mm.group(1) in m["seed_modes"]:
+                    shutil.copy(cpath, os.path.join(shape, "corpus-" + os.path.basename(cpath)))
+            if not glob.glob(os.path.join(shape, "*.case")):
+                broken.append("fuzz mode %s: no seed cases were produced" % mname)
+                continue
+            fexe = link_harness(m.get("harness_from", prop), cfg, m.get("variant", "asan-fuzz"), fuzz=True)
+            for k in range(nworkers):
+                out = os.path.join(run_dir, "out-%s-%d" % (mname, k))
+                work = os.path.join(out, "units")
+                os.makedirs(work, exist_ok=True)
+                cmd = [fexe, "-runs=%d" % max(1, int(t["cases"] * args.scale)), "-seed=%d" % (args.seed * 100 + k + 1), "-max_len=%d" % t.get("max_len", 4096),
+                       "-timeout=%d" % t.get("timeout", 30), "-rss_limit_mb=4000", "-print_final_stats=1", "-artifact_prefix=" + out + "/", work, shape]
+                worker_env[(mname, k)] = dict(os.environ, VT_FUZZ_TIER=tier, VT_FUZZ_SCRATCH=os.path.join(scratch, "%s-%d" % (mname, k)), VT_FUZZ_OUT=out,
+                                              VT_FUZZ_SHAPE_DIR=shape, VT_FUZZ_QUARANTINE=",".join(quarantine),
+                                              VT_FUZZ_OPTS=",".join(["%s=%s" % kv for kv in t.get("opt", {}).items()] +
+                                                                    [PROGRAM_OPTS[i + 1] for i in range(0, len(PROGRAM_OPTS), 2)]))
+                os.makedirs(os.path.join(scratch, "%s-%d" % (mname, k)), exist_ok=True)
+                worker_procs.append((mname, k, out, cmd))
+            continue
         for k in range(nworkers):
             out = os.path.join(run_dir, "out-%s-%d" % (mname, k))
             cmd = [exe, "--search", "--mode", m.get("harness_mode", mname), "--seed", str(args.seed * 100 + k + 1), "--cases",
@@ -317,7 +362,7 @@ def _generic(args, cfg, prop, tier, t0, known, open_f, quarantine, run_dir, scra
             w = pending.pop(0)
             os.makedirs(w[2], exist_ok=True)
             lf = open(os.path.join(w[2], "log.txt"), "w")
-            p = subprocess.Popen(w[3], stdout=lf, stderr=subprocess.STDOUT)
+            p = subprocess.Popen(w[3], stdout=lf, stderr=subprocess.STDOUT, env=worker_env.get((w[0], w[1])))
             running.append((w, p, lf, time.time()))
         time.sleep(0.05)
         still = []
@@ -344,8 +389,49 @@ def _generic(args, cfg, prop, tier, t0, known, open_f, quarantine, run_dir, scra
     samples = []
     fp_files = []
     per_mode = {}
+    fuzz_distinct = [0]
     for (w, r) in done:
         mname, k, out, cmd = w
+        if modes[mname].get("engine") == "libfuzzer":
+            sj = sorted(glob.glob(os.path.join(out, "fuzz-stats-*.json")))
+            if not sj:
+                if r != -9:
+                    broken.append("fuzz worker %s/%d left no statistics (exit %s): %s" % (mname, k, r, open(os.path.join(out, "log.txt"), errors="replace").read()[-500:]))
+                continue
+            st = json.load(open(sj[-1]))
+            pm = per_mode.setdefault(mname, {"evaluations": 0, "cases": 0, "labels": {}})
+            total_eval += st["evaluations"]; total_cases += st["parsed"]
+            pm["evaluations"] += st["evaluations"]; pm["cases"] += st["parsed"]
+            fuzz_distinct[0] += st["distinct_nontrivial"]
+            units = len(os.listdir(os.path.join(out, "units")))
+            for l, c in list(st["labels"].items()) + [("fuzz:inputs-run", st["parsed"]), ("fuzz:units-kept-for-new-coverage", units)]:
+                labels[l] = labels.get(l, 0) + c
+                pm["labels"][l] = pm["labels"].get(l, 0) + c
+            if k < 2:
+                samples += [bytes.fromhex(x).decode("latin-1") for x in st["samples"][:2]]
+            # candidates: oracle failures written by the driver; for a sanitizer abort the normalised case that was running
+            cands = sorted(glob.glob(os.path.join(out, "oracle-*.case")))
+            if r not in (0, -9) and not cands:
+                art = [a for a in os.listdir(out) if a.startswith(("crash-", "leak-"))]
+                if art:
+                    cands = sorted(glob.glob(os.path.join(out, "current-*.case")))
+                elif any(a.startswith(("timeout-", "oom-", "slow-unit-")) for a in os.listdir(out)):
+                    inconclusive += 1
+                else:
+                    broken.append("fuzz worker %s/%d ended with status %s: %s" % (mname, k, r, open(os.path.join(out, "log.txt"), errors="replace").read()[-500:]))
+            for fpath in cands:
+                exe = (exes[ekey(modes[mname])], mode_opts(modes[mname]))
+                reps = [run_replay(exe, fpath, quarantine, tier, scratch) for _ in range(3)]
+                if any(rr["kind"] == "harness" for rr in reps):
+                    broken.append("fuzz candidate %s: harness error on replay: %s" % (fpath, reps[0].get("detail", "")[:200]))
+                elif all(rr["kind"] not in ("ok", "skip") for rr in reps):
+                    if reps[0]["kind"] == "hang" and not cfg.get("termination_in_statement", False):
+                        inconclusive += 1
+                    else:
+                        violations.append((fpath, reps[0]))
+                else:
+                    labels["flaky_discarded"] = labels.get("flaky_discarded", 0) + 1
+            continue
         emode = modes[mname].get("harness_mode", mname)
         js = os.path.join(out, "worker-%s-%d.json" % (emode, k))
         if not os.path.exists(js):
@@ -386,7 +472,7 @@ def _generic(args, cfg, prop, tier, t0, known, open_f, quarantine, run_dir, scra
                 violations.append((fpath, res))
             else:
                 labels["flaky_discarded"] = labels.get("flaky_discarded", 0) + 1
-    distinct = len(merge_fp(fp_files)) + enum_nt
+    distinct = len(merge_fp(fp_files)) + enum_nt + fuzz_distinct[0]
 
     # ---------------- classify violations against known findings
     final = []
